@@ -66,7 +66,7 @@ def lit(v, sep, group):
 
 
 def pre_of(sep):
-    return [] if sep == SEPS[0] else [{"op": "set_dec", "v": sep[0]}, {"op": "set_thou", "v": sep[1]}]
+    return [] if sep == SEPS[0] else sep_ops(sep[0], sep[1])
 
 
 def Fr(v):
@@ -125,6 +125,17 @@ def generate(rng, tier):
             text = qty(rng, a, v, sep) + " " + rng.choice(WORDS) + " " + nm
             cases.append(exec_case(text, "en", pre=pre_of(sep), kind="spelling", typ="qty",
                                    expect=frac(Fr(a) * v["size"] / u["size"]), unit=u["key"]))
+    # 2b. both separators '.' (only set_decimal_seperator(".") was called, or grouping first): the literals of the
+    #     conversion codes (25.4, 28349.5231 ...) are read as written whatever the configuration; integer amounts
+    for k, (a, u, v) in enumerate([(1, "inch", "mm"), (2, "inch", "mm"), (3, "ft", "cm"), (1, "stone", "kg"), (150, "cm", "m"),
+                                   (12, "bit", "byte"), (1, "oz", "g"), (5, "mile", "km"), (1, "lb", "g"), (3, "yd", "m")]):
+        uu = next((x for x in UNITS.values() if u in x["names"] or u in x["spell"]), None)
+        vv = next((x for x in UNITS.values() if v in x["names"]), None)
+        if uu is None or vv is None or uu["kind"] != vv["kind"]:
+            continue
+        pre = [{"op": "set_dec", "v": "."}] if k % 2 == 0 else [{"op": "set_thou", "v": "."}, {"op": "set_dec", "v": "."}]
+        cases.append(exec_case("%d %s to %s" % (a, u, v), "en", pre=pre, kind="both-separators-dot", typ="qty",
+                               expect=frac(Fr(a) * uu["size"] / vv["size"]), unit=vv["key"]))
     # 3. cross-kind: never a quantity of another kind
     allu = list(UNITS.values())
     n_cross = 70 if quick else 600
